@@ -122,7 +122,7 @@ def tlc_stats(out):
     m = re.search(r"Invariant (\S+) is violated", out)
     if m:
         st["violated"] = m.group(1)
-    m = re.search(r"Temporal properties were violated", out)
+    m = re.search(r"Temporal propert(ies were|y \S+ was) violated", out)
     if m:
         st["violated"] = "temporal"
     if "Error:" in out and not st["violated"]:
